@@ -29,7 +29,10 @@ class FnView:
     def guards(self, node: ast.AST, resolve: bool = True) -> set[str]:
         g = self.cfg.guards_at(node)
         if resolve:
-            return fact_set(g, self.res.src) | fact_set(g)
+            out = fact_set(g)
+            for d in (1, 2, 3, 4):
+                out |= fact_set(g, self.res.src_at(d))
+            return out
         return fact_set(g)
 
     def rsrc(self, e: ast.expr) -> str:
@@ -92,7 +95,9 @@ def _establishing(v: FnView, fact: str) -> list:
     out = []
     for n in v.cfg.nodes:
         if n.kind in ("T", "F") and isinstance(n.node, ast.expr):
-            fs = set(_facts(n.node, n.kind == "T")) | set(_facts(n.node, n.kind == "T", v.res.src))
+            fs = set(_facts(n.node, n.kind == "T"))
+            for d in (1, 2, 3, 4):
+                fs |= set(_facts(n.node, n.kind == "T", v.res.src_at(d)))
             if fact.startswith("re:"):
                 if has_fact(fs, fact[3:]):
                     out.append(n)
@@ -109,7 +114,23 @@ def need_holds(v: FnView, node: ast.AST, alts: list[str], raw: bool = False, non
     from .norm import fact_set
 
     eg = expr_guards(node, stop=v.cfg._stop_for(node))
-    local = fact_set(eg) | fact_set(eg, v.res.src)
+    local = fact_set(eg)
+    for d in (1, 2, 3, 4):
+        local |= fact_set(eg, v.res.src_at(d))
+    # a local disjunctive guard (`not (A and B)`, `A or B`) discharges a need whose alternatives cover it
+    alt_facts = set()
+    for a in alts:
+        fa = [a] if raw else need_facts(a)
+        if len(fa) == 1:
+            alt_facts.add(fa[0])
+    from .norm import facts as _nf
+
+    for atom, outcome in eg:
+        if isinstance(atom, ast.BoolOp) and ((isinstance(atom.op, ast.And) and not outcome) or (isinstance(atom.op, ast.Or) and outcome)):
+            for sub in (src, v.res.src_at(1), v.res.src_at(2)):
+                disj = [_nf(x, outcome, sub) for x in atom.values]
+                if all(len(d) == 1 and d[0] in alt_facts for d in disj):
+                    return True
     through = []
     for a in alts:
         fs = [a] if raw else need_facts(a)
